@@ -139,6 +139,8 @@ class ProtoFlow:
                         return ("unknown",)
                     if it[0] == "rep" and isinstance(g.target, ast.Name):
                         return ("msg", it[1])
+                    if it[0] == "repscalar" and isinstance(g.target, ast.Name):
+                        return ("scalar", it[1], it[2])
                     if it[0] == "mapitems" and isinstance(g.target, ast.Tuple) and len(g.target.elts) == 2 \
                             and isinstance(g.target.elts[1], ast.Name) and g.target.elts[1].id == e.id:
                         return ("msg", it[2])
@@ -229,6 +231,8 @@ class ProtoFlow:
                         continue
                     if it[0] == "rep" and isinstance(n.target, ast.Name):
                         env[n.target.id] = ("msg", it[1])
+                    elif it[0] == "repscalar" and isinstance(n.target, ast.Name) and n.target.id not in env:
+                        env[n.target.id] = ("scalar", it[1], it[2])
                     elif it[0] == "mapitems" and isinstance(n.target, ast.Tuple) and len(n.target.elts) == 2 \
                             and isinstance(n.target.elts[1], ast.Name):
                         env[n.target.elts[1].id] = ("msg", it[2])
